@@ -100,12 +100,16 @@ pub fn select_menu(thorough: bool, sqlite_only: bool) -> Vec<SelOp> {
         m.push(SelOp::Where(CondS::One(x.clone())));
     }
     m.push(SelOp::Where(CondS::Any(vec![retag(&pb[0], 50), retag(&pb[4], 50)])));
+    m.push(SelOp::Where(CondS::All(vec![retag(&pb[2], 60), retag(&pb[3], 60)])));
+    m.push(SelOp::Where(CondS::Any(vec![])));
+    m.push(SelOp::Where(CondS::All(vec![])));
     m.push(SelOp::Where(CondS::One(XS::InSub(bx(XS::Col("b")), bx(r[0].clone())))));
     m.push(SelOp::Where(CondS::One(XS::Exists(bx(r[0].clone())))));
     m.push(SelOp::Group(XS::Col("a")));
     m.push(SelOp::Group(XS::Col("s")));
     m.push(SelOp::Having(CondS::One(XS::Bin(BOp::Gt, bx(XS::CountStar), bx(XS::Val(V::Int(1)))))));
     m.push(SelOp::Having(CondS::One(XS::Bin(BOp::Lt, bx(XS::Func(FuncK::Sum, vec![XS::Col("b")])), bx(XS::Val(V::Int(2011)))))));
+    m.push(SelOp::Having(CondS::Any(vec![])));
     for k in [UK::All, UK::Distinct, UK::Intersect, UK::Except] {
         m.push(SelOp::Union(k, bx(r[0].clone())));
     }
